@@ -1,17 +1,23 @@
 (* Model/Cast.v — the null (IsNone) dictionary and the Cast lattice of tea-dtype, for a finite universe of
-   element types.  Definitions only.  Mirrors (repaired tree):
-     tea-dtype/src/isnone.rs   IsNone for f32/f64 (l.303-409), Option<T> (l.411-466), impl_not_none! (l.468-540),
-                               String/&str (l.542-646), DateTime/TimeDelta/Time (l.648-806); default methods
-                               from_opt/unwrap/not_none/map/vabs/sort_cmp/sort_cmp_rev (l.130-288); IntoCast (l.290-301)
-     tea-dtype/src/cast.rs     generic Cast<Option<T>> for T and Cast<T> for T (l.25-37), impl_numeric_cast! (l.39-187),
-                               bool arms (l.189-260), impl_time_cast! (l.262-312), time <-> i64 (l.314-375),
-                               impl_cast_from_string! (l.392-432), misc string/time arms (l.434-500)
-     tea-dtype/src/number.rs   Number::abs (l.205-260)
+   element types.  Definitions only.  Mirrors (repaired tree, line numbers of the work-C15 branch):
+     tea-dtype/src/isnone.rs   default methods from_opt / unwrap / not_none / map / vabs / sort_cmp / sort_cmp_rev
+                               (l.128-288); IntoCast (l.291-301); IsNone for f32, f64 (l.303-415), Option<T>
+                               (l.417-470), impl_not_none!(bool u8 i32 i64 isize u64 usize) (l.472-545), String, &str
+                               (l.547-646), DateTime<U>, TimeDelta, Time (l.648-798)
+     tea-dtype/src/cast.rs     generic Cast<Option<T>> for T and Cast<T> for T (l.25-37); impl_numeric_cast! (l.39-193)
+                               and its 8 invocations (l.385-392); bool arms (l.195-267); impl_time_cast! (l.269-323,
+                               invoked l.397); time <-> i64 (l.325-383); impl_cast_from_string! (l.399-437); misc
+                               string / time arms (l.439-517)
+     tea-dtype/src/number.rs   Number::{f32,f64,i32,i64,usize,to,fromas} (l.107-160), min_/max_/abs (l.201-277)
+     tea-dtype/src/bool_type.rs BoolType::bool_
      tea-time                  DateTime(i64) / Time(i64) with NaT = i64::MIN, TimeDelta{months,inner} with NaT = months
-                               i32::MIN; From<i64>/From<Option<i64>> (impls/impl_datetime.rs, impl_time.rs, impl_timedelta.rs)
+                               i32::MIN, PartialOrd for TimeDelta; From<i64> (impls/impl_datetime.rs l.19-24,
+                               impl_time.rs l.23-28, impl_timedelta.rs l.35-43, 56-69)
    Not a cleaned-up specification: branches, guards and the order of conversions are those of the macros.
-   External behaviour (Rust's numeric `as` on floats, float Display/FromStr, chrono formatting/parsing) is the
-   parameter record `Ext`; integer `as`, integer Display/FromStr, saturation and sentinels are concrete.      *)
+   External behaviour (Rust's numeric `as` on floats, float abs / partial_cmp / Display / FromStr, chrono
+   formatting and parsing) is the parameter record `Ext`; integer `as`, integer Display / FromStr, saturation and
+   the sentinels are concrete.  Not modelled: time_unit_cast! (DateTime unit change, property C16), IsNone for
+   Vec<T>, char / u16 / u32 / i8 / i16 targets of String.                                                   *)
 From Coq Require Import ZArith List Bool.
 From Tevec Require Import Base.Prelude.
 Import ListNotations.
